@@ -184,6 +184,21 @@ Theorem C13_sizes_int :
 Proof. exact sizes_fixed_int. Qed.
 Print Assumptions C13_sizes_int.
 
+(* Go value versus text: every uint64 value z INCLUDING 0, every spelling of
+   it SetString reads (not a 0x literal, not the <n>x<hex> form; 0 written
+   "0"): circuit.Sizes of the Go value and circuit.InputSizes of the text
+   infer the same, non-zero, size — for 0 one bit (bitLen(0) = 1, "0" -> 1),
+   so an unsized argument gets the same type and at least one wire from
+   either form *)
+Theorem C13_sizes_value_eq_text :
+  forall s z,
+    0 <= z < 2 ^ 64 -> set_string s = Some z ->
+    match_hex_input s = None -> has_prefix s_0x s = false ->
+    (z = 0 -> s = s_0) ->
+    exists n, sizes [GInt z] = Ok [n] /\ input_sizes [s] = Ok [n] /\ (0 < n)%nat.
+Proof. exact sizes_eq_input_sizes. Qed.
+Print Assumptions C13_sizes_value_eq_text.
+
 (* every byte slice: Sizes is the number of bits Set writes for it *)
 Theorem C13_sizes_bytes :
   forall l, sizes [GBytes l] = Ok [(length l * 8)%nat].
